@@ -25,7 +25,9 @@ VARIANTS = {
            '- -----BEGIN PGP SIGNED MESSAGE-----', '- -----FOO-----'],
     'DB': ['- ', '-  ', '- \t'],
     'JK': ['garbage', 'data f{i} 1', 'DATA', '-DATA f{i} 1', '--', '-', 'TIMESTAMP yesterday',
-           'DATA f{i} x'],
+           'DATA f{i} x',
+           # escaped twice: ONE escape is undone, what remains is no entry
+           '- - DATA f{i} 1', '- - IGNORE f{i}', '- - - DATA f{i} 1'],
 }
 ARMOR_RE = re.compile(r'^-----.*-----\s*$', re.S)
 
@@ -94,16 +96,18 @@ def load_obs(text, lines, nl, verify, mf=None, env=None):
         kind = 'other'
     except Exception as e:   # noqa
         kind = 'internal'
-    epaths, gpg = [], [0, 0]
+    epaths, gpg, esig = [], [0, 0], []
     if kind is None:
         kind = 'signed' if m.openpgp_signed else 'plain'
         for e in m.entries:
             epaths.append(getattr(e, 'path', '') or '')
+            esig.append('%s|%s|%s|%s' % (e.tag, getattr(e, 'path', ''), getattr(e, 'size', ''),
+                                         ','.join('%s=%s' % kv for kv in sorted(getattr(e, 'checksums', {}).items()))))
         if bool(rec.texts) != bool(m.openpgp_signed):
             kind = 'other'
         if rec.texts:
             gpg = find_range(rec.texts[0], lines, nl)
-    return {'kind': kind, 'epaths': epaths, 'gpg': gpg}, m
+    return {'kind': kind, 'epaths': epaths, 'gpg': gpg, 'esig': esig}, m
 
 
 def find_range(t, lines, nl):
@@ -128,7 +132,7 @@ def line_path(line):
     return ''
 
 
-NOAUTH = {'checked': False, 'good': False, 'epaths': []}
+NOAUTH = {'checked': False, 'good': False, 'epaths': [], 'esig': []}
 
 
 def seq_records(args):
@@ -195,7 +199,7 @@ def mutate_text(rng, text, other):
         lines.pop()
     k = rng.choice(['insert', 'delete', 'dup', 'move', 'ws_tail', 'ws_head', 'crlf_one', 'crlf_all',
                     'cr_mid', 'dash_add', 'dash_del', 'concat', 'concat_blank', 'flip_body',
-                    'flip_sig', 'none', 'blank_around', 'no_final_nl', 'swap'])
+                    'flip_sig', 'none', 'blank_around', 'no_final_nl', 'swap', 'longline', 'longline'])
     nl = True
     i = rng.randrange(len(lines)) if lines else 0
     if k == 'insert':
@@ -244,6 +248,21 @@ def mutate_text(rng, text, other):
             p = rng.randrange(len(lines[j]))
             ch = lines[j][p]
             lines[j] = lines[j][:p] + ('A' if ch != 'A' else 'B') + lines[j][p + 1:]
+    elif k == 'longline':
+        # gpg truncates cleartext lines beyond 20000 bytes when verifying (and trailing blanks are not
+        # signed): text appended to a signed line behind that column is NOT authenticated
+        try:
+            g = lines.index('-----BEGIN PGP SIGNATURE-----')
+        except ValueError:
+            g = len(lines)
+        body = [j for j in range(g) if j > 2 and not lines[j].startswith('-----')]
+        if body:
+            j = rng.choice(body)
+            pad = ' ' * (20010 - len(lines[j]))
+            if lines[j].strip():
+                lines[j] = lines[j] + pad + 'SHA512 ' + 'e' * 128 + ' BLAKE2B ' + 'f' * 128
+            else:
+                lines[j] = pad + 'DATA evil 0'
     elif k == 'blank_around':
         lines = [''] * rng.randrange(0, 3) + lines + [' '] * rng.randrange(0, 3)
     elif k == 'no_final_nl':
@@ -285,6 +304,17 @@ def signed_records(args):
             if nl and lines:
                 lines.pop()
             acls = [classify_line(l) for l in lines]
+            # a line too long for gpg inside the signed body is malformed (it cannot be authenticated)
+            st = 0
+            for j, c in enumerate(acls):
+                if st == 0 and c == 'BS':
+                    st = 1
+                elif st == 1 and c == 'BL':
+                    st = 2
+                elif st == 2 and c == 'BG':
+                    st = 3
+                elif st == 2 and len(lines[j].encode('utf8', 'surrogatepass')) > 16384:
+                    acls[j] = 'JK'
             lenient = False
             if not nl and lines and acls[-1] in ('BS', 'BG', 'EN'):
                 lenient = acls[-1] == 'EN'
@@ -300,7 +330,11 @@ def signed_records(args):
                     pm = fm.parse_manifest_text(clear if clear.endswith('\n') or not clear else clear + '\n')
                     ap = [e['path'] if e['tag'] != 'AUX' else e['path'] for e in pm['entries']] \
                         if pm['ok'] else ['<unparsable>']
-                auth = {'checked': True, 'good': bool(good), 'epaths': ap}
+                    asig = ['%s|%s|%s|%s' % (e['tag'], e['path'] if e['tag'] != 'TIMESTAMP' else '',
+                                             e['size'] if e['tag'] not in ('IGNORE', 'TIMESTAMP') else '',
+                                             ','.join('%s=%s' % kv for kv in sorted(e['ck'].items())))
+                            for e in pm['entries']] if pm['ok'] else ['<unparsable>']
+                auth = {'checked': True, 'good': bool(good), 'epaths': ap, 'esig': asig if good else []}
             recs.append({'in': acls, 'paths': [line_path(l) for l in lines], 'verify': True,
                          'lenient': lenient, 'obs': obs, 'auth': auth, 'text': text, 'mut': kind})
     finally:
